@@ -133,8 +133,12 @@ func formByName(forms []EscForm, n string) (EscForm, bool) {
 func runEscaperProperty(o *Options, prop string, forms []EscForm, oracle func(EscForm, []byte, []byte) string, plan escPlan) *Result {
 	res := NewResult()
 	rng := NewRNG(o.Seed)
+	forms = longRuns(forms)
 	var cases []*escCase
 	add := func(f EscForm, carrier string, in []byte) {
+		if f.MaxIn > 0 && len(in) > f.MaxIn {
+			return
+		}
 		if f.Region != "" {
 			in = sanitizeRaw(in)
 			if len(in) == 0 {
